@@ -457,6 +457,26 @@ def r_creator_dtype(c):
     n = 0
     for mn, fd in sorted(ci.methods.items()):
         ep = fd.args.args[1].arg if len(fd.args.args) > 1 else None
+        fd = m.expand_locals(fd)     # hoisted `dtype_kwarg = ...` locals are seen through
+
+        def guard(t):
+            """+1: test that the dtype IS the default float, -1: that it is not"""
+            sign = 1
+            while isinstance(t, ast.UnaryOp) and isinstance(t.op, ast.Not):
+                t, sign = t.operand, -sign
+            if isinstance(t, ast.Compare) and len(t.ops) == 1 \
+                    and isinstance(t.ops[0], (ast.Eq, ast.NotEq)):
+                ops = {ast.unparse(t.left), ast.unparse(t.comparators[0])}
+                if ops in ({f"{ep}.dtype", "np.dtype(float)"}, {f"{ep}.dtype", "np.float64"}):
+                    return sign if isinstance(t.ops[0], ast.Eq) else -sign
+            return 0
+
+        def dtype_in(e):
+            return any(
+                isinstance(x, ast.Call) and ast.unparse(x.func) == "ast.keyword"
+                and any(k.arg == "arg" and ast.unparse(k.value) in ("'dtype'", '"dtype"')
+                        for k in x.keywords)
+                and f"{ep}.dtype" in ast.unparse(x) for x in ast.walk(e))
         for call in ast.walk(fd):
             if not (isinstance(call, ast.Call) and ast.unparse(call.func) == "ast.Call"
                     and call.args and isinstance(call.args[0], ast.Call)
@@ -468,18 +488,24 @@ def r_creator_dtype(c):
             creator = call.args[0].args[1].value
             n += 1
             kws = next((k.value for k in call.keywords if k.arg == "keywords"), None)
-            has_dtype = kws is not None and any(
-                isinstance(x, ast.Call) and ast.unparse(x.func) == "ast.keyword"
-                and any(k.arg == "arg" and ast.unparse(k.value) in ("'dtype'", '"dtype"')
-                        for k in x.keywords)
-                and f"{ep}.dtype" in ast.unparse(x) for x in ast.walk(kws))
             default_guard = False
+            if isinstance(kws, ast.IfExp):
+                # keywords=[] if <default dtype> else [dtype keyword]
+                g = guard(kws.test)
+                if g:
+                    dflt, other = (kws.body, kws.orelse) if g > 0 else (kws.orelse, kws.body)
+                    has_dtype = dtype_in(other) and (dtype_in(dflt)
+                                                     or not creator.endswith("_like"))
+                else:
+                    has_dtype = dtype_in(kws.body) and dtype_in(kws.orelse)
+            else:
+                has_dtype = kws is not None and dtype_in(kws)
             p = call
             while p is not fd:
                 par = p._parent
-                if isinstance(par, ast.If) and p in par.body and ast.unparse(par.test) in (
-                        f"{ep}.dtype == np.dtype(float)", f"{ep}.dtype == np.float64",
-                        f"np.dtype(float) == {ep}.dtype"):
+                if isinstance(par, ast.If) and (
+                        (p in par.body and guard(par.test) > 0)
+                        or (p in par.orelse and guard(par.test) < 0)):
                     default_guard = True
                 p = par
             ok = has_dtype or (default_guard and not creator.endswith("_like"))
